@@ -446,6 +446,22 @@ theorem C04_target_opstamp_counterexample :
     publishedUids (rollback (endMerge stP bad)) = [11] := by
   decide
 
+/-- Why the machines assume that the stamper never hands out an opstamp twice. After a rollback
+(or reopening the index) the real stamper restarts AT the committed opstamp, so the first
+operation of the new writer carries the commit's own opstamp (C02's recorded finding
+`reopen-first-delete-published-by-merge`). If that operation is a delete, a merge of committed
+segments (target = commit opstamp, comparison `<=`) consumes it: the hypothesis of
+`C04_target_opstamp_committed` fails and the uncommitted delete is published. -/
+theorem C04_repeated_opstamp_counterexample :
+    let a : Entry := { segId := 0, docs := [⟨10, [1]⟩], alive := [true], cursor := 0 }
+    let b : Entry := { segId := 1, docs := [⟨11, [2]⟩], alive := [true], cursor := 0 }
+    let st : State := { queue := [⟨6, 1⟩], committed := [a, b], uncommitted := [],
+                        committedOpstamp := 6, published := [a, b], epoch := 1 }
+    consumed st.queue a.cursor st.committedOpstamp ≠ [] ∧
+    publishedUids st = [10, 11] ∧
+    publishedUids (endMerge st ⟨[0, 1], mergeEntries st.queue [a, b] (mergeTarget true 6 7) 2, 1⟩) = [11] := by
+  decide
+
 /-- Counterexample for a stale cursor: uncommitted source `a` (doc 10, key 1) was flushed before
 delete(key 1), source `b` holds doc 20 with key 1 added AFTER the delete (an upsert). A policy
 merge `[a, b]` with target = current stamp applies the delete to `a` only; taking the merged
